@@ -75,7 +75,7 @@ type rxRunner struct {
 }
 
 func pkgsDesc(ps []wPkg) []map[string]interface{} {
-	var d []map[string]interface{}
+	d := []map[string]interface{}{} // never JSON null (an empty response has no packages)
 	for _, p := range ps {
 		env := [][]interface{}{}
 		for _, m := range p.Env {
@@ -162,9 +162,11 @@ func recvErrClass(err error) string {
 // sendDirect hands the response, cut at the given offsets, to Channel.WritePacket.
 func (r *rxRunner) sendDirect(resp []byte, cuts []int) {
 	from := 0
+	// a repeated cut is a header-only packet in mid-response; a cut at len(resp) leaves the last data
+	// packet without EOM and ends the message with a header-only EOM packet
 	bounds := append(append([]int{}, cuts...), len(resp))
-	for _, to := range bounds {
-		eom := to == len(resp)
+	for bi, to := range bounds {
+		eom := bi == len(bounds)-1
 		r.tr.Emit(Ev{"ev": "Packet", "from": from, "to": to, "eom": eom})
 		pk := &tds.Packet{Data: append([]byte(nil), resp[from:to]...)}
 		pk.Header.MsgType = tds.TDS_BUF_RESPONSE
@@ -254,9 +256,10 @@ func (r *rxRunner) runReader(id int, resp []byte, cuts []int, chunks []int, mode
 	r.addHooks(eedHooks, envHooks)
 	var stream []byte
 	from := 0
-	for _, to := range append(append([]int{}, cuts...), len(resp)) {
+	rbounds := append(append([]int{}, cuts...), len(resp))
+	for bi, to := range rbounds {
 		st := 0
-		if to == len(resp) {
+		if bi == len(rbounds)-1 {
 			st = 1
 		}
 		r.tr.Emit(Ev{"ev": "Packet", "from": from, "to": to, "eom": st == 1})
@@ -422,9 +425,10 @@ func (r *rxRunner) runFail(id int, ps []wPkg, cuts []int, off int, kind string, 
 	type pk struct{ from, to, end int }
 	var pks []pk
 	from := 0
-	for _, to := range append(append([]int{}, cuts...), len(resp)) {
+	fbounds := append(append([]int{}, cuts...), len(resp))
+	for bi, to := range fbounds {
 		st := 0
-		if to == len(resp) {
+		if bi == len(fbounds)-1 {
 			st = 1
 		}
 		stream = append(stream, mkPacket(4, st, 0, 0, resp[from:to])...)
@@ -437,7 +441,7 @@ func (r *rxRunner) runFail(id int, ps []wPkg, cuts []int, off int, kind string, 
 	covered := 0
 	for _, p := range pks {
 		if p.end <= off {
-			r.tr.Emit(Ev{"ev": "Packet", "from": p.from, "to": p.to, "eom": p.to == len(resp)})
+			r.tr.Emit(Ev{"ev": "Packet", "from": p.from, "to": p.to, "eom": p.end == len(stream)})
 			covered = p.to
 		}
 	}
@@ -519,8 +523,57 @@ func (r *rxRunner) resp(id int, ps []wPkg) {
 
 // ---------------------------------------------------------------- response generators
 
-// randResponse builds a judged response: at least one package reaches the consumer, a final
-// DONE (status 0) occurs only as the last package.
+// withEmpty adds header-only packets to a packetisation (C02: "all packet sizes incl. header-only"):
+// a repeated cut (or a cut at 0) is a header-only packet inside the response, a cut at n ends the
+// message with a header-only EOM packet behind a last data packet without EOM.
+func withEmpty(rng *rand.Rand, cs []int, n int) []int {
+	out := append([]int{}, cs...)
+	mid := func() {
+		if len(out) > 0 && rng.Intn(3) > 0 {
+			out = append(out, out[rng.Intn(len(out))])
+		} else {
+			out = append(out, 0)
+		}
+	}
+	switch rng.Intn(3) {
+	case 0:
+		out = append(out, n)
+	case 1:
+		mid()
+	default:
+		mid()
+		out = append(out, n)
+	}
+	sort.Ints(out)
+	return out
+}
+
+// quietResponse: a response from which nothing reaches the consumer and that carries no DONE - only
+// informational messages / environment changes, or no package at all (C03: "empty" response shape;
+// the final DONE is missing and must be supplied)
+func quietResponse(rng *rand.Rand) []wPkg {
+	var ps []wPkg
+	for k := rng.Intn(3); k > 0; k-- {
+		if rng.Intn(2) == 0 {
+			ps = append(ps, randEED(rng, true))
+		} else {
+			ps = append(ps, randEnv(rng, 0))
+		}
+	}
+	return ps
+}
+
+// randCuts: up to k cut offsets inside 1..n-1 (none for n < 2)
+func randCuts(rng *rand.Rand, k, n int) []int {
+	var cs []int
+	for j := 0; j < k && n > 1; j++ {
+		cs = append(cs, 1+rng.Intn(n-1))
+	}
+	return uniq(sortInts(cs))
+}
+
+// randResponse builds a response from which at least one package reaches the consumer; a final DONE
+// (status 0) occurs only as the last package.
 func randResponse(rng *rand.Rand, maxVar int, packSize int) []wPkg {
 	var ps []wPkg
 	special := func() {
@@ -684,8 +737,9 @@ func mapOffset(rng *rand.Rand, absN []int, real []wPkg, o int) int {
 }
 
 type rxAbsStep struct {
-	Op   string `json:"op"`
+	Op   string `json:"op"` // Send (n bytes, e: carries EOM), Empty (header-only packet, e: EOM), Round
 	N    int    `json:"n"`
+	E    bool   `json:"e"`
 	Resp []struct {
 		K string `json:"k"`
 		N int    `json:"n"`
@@ -730,7 +784,7 @@ func rxMain(args []string) error {
 			// split into rounds
 			type round struct {
 				abs   []struct{ K string `json:"k"`; N int `json:"n"` }
-				sends []int
+				sends []int // bytes per packet of the model's packetisation; 0 = header-only packet
 			}
 			var rounds []round
 			for _, st := range steps {
@@ -739,6 +793,9 @@ func rxMain(args []string) error {
 				}
 				if st.Op == "Send" {
 					rounds[len(rounds)-1].sends = append(rounds[len(rounds)-1].sends, st.N)
+				}
+				if st.Op == "Empty" {
+					rounds[len(rounds)-1].sends = append(rounds[len(rounds)-1].sends, 0)
 				}
 			}
 			tr.Reset(steps)
@@ -756,16 +813,30 @@ func rxMain(args []string) error {
 				for _, a := range rd.abs {
 					absN = append(absN, a.N)
 				}
+				// the packet boundaries of the model's packetisation, mapped to the concrete bytes; a
+				// header-only packet repeats the boundary in front of it (sendDirect turns that into an
+				// empty packet; the last boundary is always len(resp) and implied)
 				var cuts []int
-				o := 0
+				o, last := 0, 0
 				for j, n := range rd.sends {
-					o += n
-					if j < len(rd.sends)-1 {
-						cuts = append(cuts, mapOffset(rng, absN, reals[i], o))
+					if j == len(rd.sends)-1 {
+						break
 					}
+					if n == 0 {
+						cuts = append(cuts, last)
+						continue
+					}
+					o += n
+					c := mapOffset(rng, absN, reals[i], o)
+					if c < last {
+						c = last
+					}
+					if c == last && c != len(respBytes(reals[i])) && o < sumInts(absN) {
+						continue // two model packets fell onto one concrete offset: one packet
+					}
+					cuts = append(cuts, c)
+					last = c
 				}
-				sort.Ints(cuts)
-				cuts = uniq(cuts)
 				if err := r.runDirect(i+1, respBytes(reals[i]), cuts, "frag", i == 0, b2i(i == 0), b2i(i == 0)); err != nil {
 					return err
 				}
@@ -829,6 +900,9 @@ func rxMain(args []string) error {
 			all = append(all, c)
 		}
 		sets = append(sets, all)
+		for j := 0; j < 8; j++ { // packetisations with header-only packets
+			sets = append(sets, withEmpty(rng, sets[rng.Intn(len(sets))], n))
+		}
 		for _, cs := range sets {
 			if err := r.runDirect(1, resp, cs, "frag", true, 2, 1); err != nil {
 				return err
@@ -858,6 +932,11 @@ func rxMain(args []string) error {
 			if err := r.runDirect(1, resp, cs, "frag", true, 1, 1); err != nil {
 				return err
 			}
+			if mask%5 == i%5 { // the same cut set with header-only packets
+				if err := r.runDirect(1, resp, withEmpty(rng, cs, n), "frag", true, 1, 1); err != nil {
+					return err
+				}
+			}
 		}
 	}
 
@@ -875,7 +954,7 @@ func rxMain(args []string) error {
 		}
 		cut := 1 + rng.Intn(n-1)
 		cut2 := 1 + rng.Intn(n-1)
-		cutsets := [][]int{nil, {cut}, uniq(sortInts([]int{cut, cut2}))}
+		cutsets := [][]int{nil, {cut}, uniq(sortInts([]int{cut, cut2})), withEmpty(rng, []int{cut}, n)}
 		for ci, cs := range cutsets {
 			total := n + 8*(len(cs)+1)
 			var parts [][]int
@@ -929,6 +1008,9 @@ func rxMain(args []string) error {
 				pack = 256 + rng.Intn(4096)
 			}
 			ps := randResponse(rng, 30, pack)
+			if k > 0 && rng.Intn(5) == 0 {
+				ps = quietResponse(rng)
+			}
 			resps = append(resps, ps)
 			r.resp(k+1, ps)
 			if err := r.runDirect(k+1, respBytes(ps), nil, "ref", true, 1, 1); err != nil {
@@ -937,11 +1019,10 @@ func rxMain(args []string) error {
 		}
 		for k, ps := range resps {
 			resp := respBytes(ps)
-			var cs []int
-			for j := rng.Intn(5); j > 0; j-- {
-				cs = append(cs, 1+rng.Intn(len(resp)-1))
+			cs := randCuts(rng, rng.Intn(5), len(resp))
+			if rng.Intn(3) == 0 {
+				cs = withEmpty(rng, cs, len(resp))
 			}
-			cs = uniq(sortInts(cs))
 			eh, vh := 0, 0
 			if k == 0 {
 				eh, vh = 1+rng.Intn(2), 1
@@ -1019,6 +1100,9 @@ func rxMain(args []string) error {
 		var resps [][]wPkg
 		for k := 0; k < nr; k++ {
 			ps := randResponse(rng, 30, 0)
+			if k > 0 && rng.Intn(6) == 0 {
+				ps = quietResponse(rng)
+			}
 			resps = append(resps, ps)
 			r.resp(k+1, ps)
 			if err := r.runDirect(k+1, respBytes(ps), nil, "ref", true, 1, 1); err != nil {
@@ -1027,11 +1111,10 @@ func rxMain(args []string) error {
 		}
 		for k, ps := range resps {
 			resp := respBytes(ps)
-			var cs []int
-			for j := rng.Intn(4); j > 0; j-- {
-				cs = append(cs, 1+rng.Intn(len(resp)-1))
+			cs := randCuts(rng, rng.Intn(4), len(resp))
+			if rng.Intn(4) == 0 {
+				cs = withEmpty(rng, cs, len(resp))
 			}
-			cs = uniq(sortInts(cs))
 			var script []string
 			for j := 0; j < len(ps)+2; j++ {
 				script = append(script, outs[rng.Intn(len(outs))])
@@ -1063,6 +1146,9 @@ func rxMain(args []string) error {
 			cs = append(cs, 1+rng.Intn(n-1))
 		}
 		cs = uniq(sortInts(cs))
+		if i%3 == 2 {
+			cs = withEmpty(rng, cs, n)
+		}
 		total := n + 8*(len(cs)+1)
 		kinds := []string{"eof", "reset", "timeout", "eofdata"}
 		for off := 0; off <= total; off++ {
@@ -1095,6 +1181,14 @@ func rxMain(args []string) error {
 		"responses": r.resps, "runs": r.runs, "recvs": r.recvs, "kinds": r.kinds})
 	_ = io.EOF
 	return nil
+}
+
+func sumInts(s []int) int {
+	t := 0
+	for _, v := range s {
+		t += v
+	}
+	return t
 }
 
 func uniq(s []int) []int {
